@@ -374,24 +374,31 @@ def _run(ctx, items):
 
 def run(ctx):
     n = 60000 if ctx.tier == "quick" else 1500000
-    items = []
     skipped = 0
-    while len(items) < n:
-        dy = ctx.rng.random() < 0.5
-        g, c = gen_grid(ctx.rng, dy)
-        if not in_domain(g, c):
-            skipped += 1
-            continue
-        items.append((g, c, dy and is_dyadic(g)))
+    done = 0
+    chunk = 60000   # generated, run and judged chunk by chunk so that memory stays bounded
+    first = True
+    while done < n:
+        items = []
+        while len(items) < min(chunk, n - done):
+            dy = ctx.rng.random() < 0.5
+            g, c = gen_grid(ctx.rng, dy)
+            if not in_domain(g, c):
+                skipped += 1
+                continue
+            items.append((g, c, dy and is_dyadic(g)))
+        if first:
+            for g, c, d in items[:200]:
+                if len(g) >= 2 and len(ctx.samples) < 4:
+                    ctx.sample({"grid": [[i, float(o)] for i, o in g[:6]], "markers": len(g), "count": c,
+                                "class": "dyadic" if d else "general"})
+            first = False
+        _run(ctx, items)
+        done += len(items)
     ctx.extra["out_of_domain_skipped"] = skipped
-    for g, c, d in items[:200]:
-        if len(g) >= 2 and len(ctx.samples) < 4:
-            ctx.sample({"grid": [[i, float(o)] for i, o in g[:6]], "markers": len(g), "count": c,
-                        "class": "dyadic" if d else "general"})
     ctx.assumptions += ["fractions.Fraction arithmetic on the exact values of the doubles is the reference",
                         "a marker exactly at offset 0 counts as 'at or before the start'; one exactly at the end as 'at or beyond the end'",
                         "inputs whose normalised indices leave +-2^29 are outside the domain"]
-    _run(ctx, items)
 
 
 def replay(ctx, doc):
